@@ -55,7 +55,7 @@ fn main() {
                 let scalars = xplor::universe(&mut rng);
                 let mut cfg = xplor::default_cfg(&mut rng, &scalars);
                 cfg.unreachable_blocks = rng.chance(1, 4);
-                let function = fv::gen::function(&mut rng, &cfg, 0x1000);
+                let function = fv::gen::any_function(&mut rng, &cfg, 0x1000);
                 let x = XProg {
                     function, scalars: scalars.clone(), big: rng.bool(), mem_base: 0x2000,
                     inits: xplor::initial_states(&mut rng, &scalars, 0x2000, 2),
